@@ -198,10 +198,19 @@ func RunMarginHistories(c Ctx, rep *report.Report, rng *chain.Rng, n, steps int,
 				if rng.Intn(2) == 0 {
 					coll, bor = tok, "rowan"
 				}
+				if rng.Intn(12) == 0 { // neither or both assets native (refused since the fix of F-17)
+					coll, bor = tok, w.Toks[rng.Intn(len(w.Toks))]
+					if rng.Intn(4) == 0 {
+						coll, bor = "rowan", "rowan"
+					}
+				}
 				pool := mpoolOf(pre, tid)
 				base := pool.NB
 				if coll != "rowan" {
 					base = pool.EB
+				}
+				if coll != "rowan" && bor != "rowan" {
+					tok = coll
 				}
 				amt := new(big.Int).Div(base, big.NewInt(int64(20+rng.Intn(2000))))
 				switch rng.Intn(10) {
